@@ -110,7 +110,10 @@ where
     type AlignAs = FlatVecAlignAs<T, L>;
 
     unsafe fn ptr_from_bytes(bytes: *mut [u8]) -> *mut Self {
-        let meta = floor_mul(slice_ptr_len(bytes) - Self::DATA_OFFSET, Self::ALIGN) / T::SIZE;
+        // Zero-sized items take no room: their number is bounded by the length type only.
+        let meta = floor_mul(slice_ptr_len(bytes) - Self::DATA_OFFSET, Self::ALIGN)
+            .checked_div(T::SIZE)
+            .unwrap_or(usize::MAX);
         ptr::slice_from_raw_parts_mut(bytes as *mut u8, meta) as *mut Self
     }
     unsafe fn ptr_to_bytes(this: *mut Self) -> *mut [u8] {
